@@ -140,6 +140,12 @@ func TestC15(t *testing.T) {
 		var stmts, defs []lang.Stmt
 		var inner []lang.Stmt
 		inner = append(inner, lang.Assign{N: "x", X: srcExpr})
+		if srcProv == "literal" && (src.K == lang.KInt || src.K == lang.KFloat) && gen.Uniform(rt, "calcwithliteral", 3) == 0 {
+			// the literal also stands in a calculation made of literals only: what
+			// is worked out there is not what the literal is
+			op := rapid.SampledFrom([]string{"*", "+", "-"}).Draw(rt, "calcop")
+			inner = append(inner, lang.Assign{N: "calc", X: lang.Binary{Op: op, L: srcExpr, R: lang.Lit{V: lang.Int(rapid.SampledFrom([]int64{7, 1, 65535, 70000}).Draw(rt, "calck"))}}})
+		}
 		names := []string{"x"}
 		aliases := 1
 		if srcProv != "literal" && rapid.Bool().Draw(rt, "stepsource") {
@@ -336,7 +342,7 @@ func TestC15(t *testing.T) {
 		for _, n := range names {
 			observe = append(observe, lang.Name{N: n})
 		}
-		observe = append(observe, srcExpr)
+		observe = append(observe, srcExpr, lang.Name{N: "calc"})
 		inner = append(inner, lang.ExprStmt{X: lang.Call{Fn: "trace", Args: observe}})
 		iters := rapid.IntRange(1, 5).Draw(rt, "iters")
 		stmts = append(stmts, defs...)
